@@ -91,6 +91,21 @@ CLAIMED["C40"] = (
     "DESIGN.md section 6 C40",
 )
 
+CLAIMED["C43"] = (
+    "Units.convert_units, the derived units Pa/J/N/W/degree and the material-constant conversion "
+    "(Constants.__post_init__/to_units for FluidComponent and SolidConstants) are executed with symbolic "
+    "positive base scalings and symbolic values for unit strings of the documented grammar (all single "
+    "factors, sampled/all pairs, sampled triples; exponents -3..3). z3 decides: round trips in both "
+    "directions, composition (factor-by-factor = composed string, split conversion), exponent semantics, "
+    "whitespace insensitivity, array conversion element-wise without modifying the input, derived units = "
+    "their base-unit expressions, constants converted and converted back to their SI values, and "
+    "conversion to a second symbolic unit system. Only the conversion clauses of the property are claimed.",
+    "Floats as exact reals; scalings in [1/64,64]; <=3 factors; integer exponents; the clause 'a flow model run "
+    "with scaled units gives the same SI solution' is outside (whole simulation incl. spsolve).",
+    "symbolic execution of Units/Constants on z3 reals + SMT (nonlinear real arithmetic)",
+    "DESIGN.md section 6 C43",
+)
+
 NOT_APPLICABLE = {
     "C11": "MPFA local systems are inverted in LAPACK/numba kernels on data-dependent block structures; a symbolic inverse of the interaction-region blocks is beyond z3/cvc5 and with concrete matrices nothing quantified remains for a solver.",
     "C13": "MPSA: same obstacle as C11 with 2-3x larger local systems.",
